@@ -124,13 +124,23 @@ func (f *MapField) GenReadFrom() (string, error) {
 				{{.M.KeyField.GenReadFrom}}
 				typ := enc.TLNum(0)
 				l := enc.TLNum(0)
-				{{call .GenTlvNumberDecode "typ"}}
-				{{call .GenTlvNumberDecode "l"}}
-				if l > enc.TLNum(reader.Length()-reader.Pos()) {
-					return nil, enc.ErrFailToParse{TypeNum: typ, Err: io.ErrUnexpectedEOF}
-				}
-				if typ != {{.M.ValField.TypeNum}} {
-					return nil, enc.ErrFailToParse{TypeNum: {{.M.KeyField.TypeNum}}, Err: enc.ErrUnrecognizedField{TypeNum: typ}}
+				for {
+					{{call .GenTlvNumberDecode "typ"}}
+					{{call .GenTlvNumberDecode "l"}}
+					if l > enc.TLNum(reader.Length()-reader.Pos()) {
+						return nil, enc.ErrFailToParse{TypeNum: typ, Err: io.ErrUnexpectedEOF}
+					}
+					if typ == {{.M.ValField.TypeNum}} {
+						break
+					}
+					// an unrecognized element between the key and its value is skipped
+					// under the same rule as anywhere else in the structure
+					if !ignoreCritical && ((typ <= 31) || ((typ & 1) == 1)) {
+						return nil, enc.ErrFailToParse{TypeNum: {{.M.KeyField.TypeNum}}, Err: enc.ErrUnrecognizedField{TypeNum: typ}}
+					}
+					if err = reader.Skip(int(l)); err != nil {
+						return nil, enc.ErrFailToParse{TypeNum: typ, Err: err}
+					}
 				}
 				{{.M.ValField.GenReadFrom}}
 				_ = value
